@@ -9,7 +9,8 @@
   The array of entries is kept field by field: `slots[i]` = (k, k_is_constant, v) of `table[i]`
   (`empty` = LH_EMPTY, `freed` = LH_FREED), `next[i]` / `prev[i]` = the two link pointers as slot
   indices (`none` = NULL).  `size` is the field `t->size`; the allocation is `slots.length` long
-  (they differ only after the lh_table_resize defect, see `resizeWith`).
+  (kept apart because lh_table_resize once stored the requested size instead of the size of the
+  table it had built, see `resizeWith`; the invariant says they agree).
   Keys are compared with `=` (equal_fn = strcmp(..) == 0 on C strings); the hash is an arbitrary
   function parameter `hash : K → Nat` (hash_fn: lh_char_hash with any seed, lh_perllike_str_hash,
   or any caller-supplied function).
@@ -39,7 +40,7 @@ structure Table (K V : Type) where
   slots : List (Slot K V)
   next : List (Option Nat)
   prev : List (Option Nat)
-  deriving Repr
+  deriving Repr, DecidableEq
 
 /-- what a call leaves behind: the table, the C return value, the entries handed to free_fn
 (key, k_is_constant, value) in call order, known-defect tags -/
@@ -48,7 +49,7 @@ structure Res (K V : Type) where
   ret : Int
   freed : List (K × Bool × V) := []
   tags : List String := []
-  deriving Repr
+  deriving Repr, DecidableEq
 
 variable {K V : Type}
 
@@ -174,9 +175,10 @@ def rebuildLoop (ins : Table K V → K → V → Bool → Outcome (Res K V)) (t 
     | _, _ => .fault "resize: list entry outside the allocation"
 
 /-- int lh_table_resize(t, new_size), the inserts into the new table done by `ins`.
-`t->size = new_size` although the new table may itself have grown while it was filled
-(`lhResizeKeepsArgSize`, read off the current source): then `size` no longer describes the
-allocation — tag `lh.resize.size-not-propagated`. -/
+The new table may itself have grown while it was filled.  Which size is stored is read off the
+current source (`lhResizeKeepsArgSize`): `t->size = new_t->size` (false; the code as repaired by the
+fix: commit "lh_table_resize recorded the requested size") or `t->size = new_size` (true; then
+`size` no longer describes the allocation and the tag `lh.resize.size-not-propagated` is logged). -/
 def resizeWith (ins : Table K V → K → V → Bool → Outcome (Res K V)) (t : Table K V) (newSize : Nat) :
     Outcome (Res K V) :=
   match (new newSize : Outcome (Table K V)) with
